@@ -657,6 +657,10 @@ def main(ctx):
             if "PANIC" in hres[i] or (mres[i] is not None and hres[i] != mres[i]):
                 what = {"M": "map-wrapper", "C": "gofunc-gateway", "J": "jsfunc-gateway", "I": "goslice-live-view"}[gname]
                 if gname == "I":
+                    ishrunk = ctx.stats.get("I_shrunk", 0)
+                    if ishrunk >= 3:
+                        continue          # three minimised replays are enough; the obligation already records the count
+                    ctx.stats["I_shrunk"] = ishrunk + 1
                     # shrink the history and name the op after which the views diverge
                     pre, ops_i = both[i].split()[:5], both[i].split()[5:]
                     def bad_at(sub, pre=pre):
